@@ -371,6 +371,16 @@ func newSrvRig(gated bool, opts ...server.OptionFn) *srvRig {
 	r.srv.RegisterFunctionName("FnP", "mul", func(ctx context.Context, a *PArgs, rep *PReply) error {
 		return (&ArithP{h: r.h}).Mul(ctx, a, rep)
 	}, "")
+	// a registered function that takes its argument by value
+	r.srv.RegisterFunctionName("FnV", "mul", func(ctx context.Context, a SArgs, rep *SReply) error {
+		touchResMeta(ctx, a.Id)
+		c, err := r.h.run(a.Id, a.A, a.B, a.Mode, a.Text)
+		if err != nil {
+			return err
+		}
+		rep.Id, rep.C = a.Id, c
+		return nil
+	}, "")
 	r.srv.AddHandler("Rt", "mul", func(ctx *server.Context) error {
 		// the router handler is user code: it runs for every request routed to it
 		if m, ok := ctx.Get(share.ReqMetaDataKey).(map[string]string); ok {
